@@ -57,8 +57,9 @@ def run_verus_unit(unit, tier):
     r['functions'] = ex['functions']
     r['gen_file'] = os.path.relpath(out, VERIF)
     # the lemma files must be free of assume/admit
-    bad = [h for h in scan_assumptions([os.path.join(udir, ex['spec'].get('lemmas', 'lemmas.rs')),
-                                        os.path.join(udir, ex['spec']['contracts'])])
+    def _lst(x):
+        return x if isinstance(x, list) else [x]
+    bad = [h for h in scan_assumptions([os.path.normpath(os.path.join(udir, f)) for f in _lst(ex['spec'].get('lemmas', 'lemmas.rs')) + _lst(ex['spec']['contracts'])])
            if re.search(r'\b(assume|admit)\s*\(', h)]
     if bad:
         r.update(status='undecided', undecided=[{'reason': 'assume/admit in lemmas or contracts: %s' % bad}])
@@ -76,7 +77,9 @@ def run_verus_unit(unit, tier):
     r['clauses'] = count_clauses(ex)
     # ---- canaries (vacuity guards): assert(false) must FAIL wherever a contract could be vacuous
     if cl['status'] == 'verified':
-        contracts = extract.parse_contracts(os.path.join(udir, ex['spec']['contracts']))
+        contracts = {}
+        for cfn in _lst(ex['spec']['contracts']):
+            contracts.update(extract.parse_contracts(os.path.normpath(os.path.join(udir, cfn))))
         jobs = []
         for fn, dirs in contracts.items():
             jobs.append((fn, ('body_start', '', '    proof { assert(false); } // CANARY\n'), 'body_start'))
@@ -271,8 +274,9 @@ def build_evidence(pid, P, tier, seed, unit_results, violations, known_hits, wal
                 cmds.append(r['checker_cmd'])
             for f in fns[:3]:
                 samples.append({'unit': r['unit'], 'obligation_bundle': f['function'], 'mode': f['mode'], 'discharged': f['success'], 'smt_ms': f['smt_ms']})
-            scan_paths += [os.path.join(VERIF, 'units', r['unit'], 'lemmas.rs'), os.path.join(VERIF, 'units', r['unit'], 'contracts.vc')]
             spec = json.load(open(os.path.join(VERIF, 'units', r['unit'], 'unit.json')))
+            for f in (spec.get('lemmas') if isinstance(spec.get('lemmas'), list) else [spec.get('lemmas', 'lemmas.rs')]) + (spec['contracts'] if isinstance(spec['contracts'], list) else [spec['contracts']]):
+                scan_paths.append(os.path.normpath(os.path.join(VERIF, 'units', r['unit'], f)))
             scan_paths += [os.path.join(VERIF, 'vx', 'prelude', p) for p in spec.get('prelude', [])]
             trusted += spec.get('trusted_base', [])
             assumptions += spec.get('assumptions', [])
@@ -318,4 +322,13 @@ def build_evidence(pid, P, tier, seed, unit_results, violations, known_hits, wal
 
 
 if __name__ == '__main__':
-    sys.exit(main())
+    try:
+        rc = main()
+    except SystemExit:
+        raise
+    except BaseException as e:   # a crash of the machinery is never an alarm
+        import traceback
+        traceback.print_exc()
+        print('UNDECIDED: internal error in the checking machinery: %r' % (e,))
+        rc = 2
+    sys.exit(rc)
